@@ -77,6 +77,7 @@ type scenario struct {
 	Cfg    cfgSpec           `json:"cfg"`
 	Cl     clientSpec        `json:"cl"`
 	Hd     handlerSpec       `json:"hd"`
+	EmptyFirst bool          `json:"emptyfirst"` // message 1 is the empty message (zero-length payload)
 	Msgs   map[string]string `json:"msgs,omitempty"` // id -> kind class ("" = harness picks by seed)
 	Params map[string]any    `json:"params,omitempty"`
 }
@@ -165,6 +166,7 @@ type retObs struct {
 // one write): the reference of property C08.
 type refObs struct {
 	Has  bool          `json:"has"`
+	Kind string        `json:"kind"` // chunk (C08) | history (C15) | solo (C14) | schema (C20)
 	Disp []dispatchObs `json:"disp"`
 	Cl   clientObs     `json:"cl"`
 	Ret  retObs        `json:"ret"`
@@ -179,5 +181,7 @@ type observation struct {
 	Ret  retObs        `json:"ret"`
 	MaxGet int         `json:"maxget"` // the max GET URL length the transcoder was configured with (0 = default)
 	Ref  refObs        `json:"ref"`
+	Pool []poolEvent   `json:"pool"`   // pool hook events of the Transcoder this RPC ran on (history / concurrency families)
+	PoolMaxCap int     `json:"poolmaxcap"`
 	Note string        `json:"note"`
 }
